@@ -157,11 +157,13 @@ func c03sOne(ss *StreamSvc, env *streamEnv, p streamPlan, r *MethodResult, repor
 		// the failure to open does not depend on the element type or the schedule: kind, the number
 		// of replies and whether the server upgraded the connection classify it
 		fail(fmt.Sprintf("C03 stream-open-failed kind=%s replies=%s upgraded=%v observed=%s", env.kind, seqLenClass(len(sent)), ex.Upgraded, streamErrClass(ex.OpenErr)),
-			fmt.Sprintf("the service streamed %d results and closed its stream without error; the client endpoint returned no stream but the error %v (connection upgraded: %v, status %d, body %q)",
-				len(sent), ex.OpenErr, ex.Upgraded, ex.Status, truncate(ex.Body, 120)))
+			fmt.Sprintf("the service streamed %d results and closed its stream without error; the client endpoint returned no stream but the error %v (%s)",
+				len(sent), ex.OpenErr, ex.responseText()))
 		return sigs
 	}
-	if first == "server" {
+	// the client's view is authoritative when its script ran to its end (see c02stream.go)
+	cliClean := ex.Cli.Finished && !ex.Cli.Aborted
+	if first == "server" && !(cliClean && !seqEqual(sp, m.StreamResult, sent, got)) {
 		so := ex.Srv.failedObs()
 		if so != nil && (so.Op == opSend || so.Op == opClose) {
 			pos := 0
@@ -204,7 +206,7 @@ func c03sOne(ss *StreamSvc, env *streamEnv, p streamPlan, r *MethodResult, repor
 			}
 			if seqEqual(sp, m.StreamResult, sent, got) {
 				outcome("client-end-error")
-				fail(fmt.Sprintf("C03 stream-end %s replies=%s observed=%s", feat, seqLenClass(len(sent)), streamErrClass(o.Err)),
+				fail(fmt.Sprintf("C03 stream-end %s observed=%s", feat, streamErrClass(o.Err)),
 					fmt.Sprintf("after the %d results the service streamed and its Close, client stream Recv returned %v instead of io.EOF", len(sent), o.Err))
 				return sigs
 			}
@@ -214,7 +216,7 @@ func c03sOne(ss *StreamSvc, env *streamEnv, p streamPlan, r *MethodResult, repor
 			return sigs
 		}
 	}
-	if first == "server" && len(got) < len(sent) {
+	if first == "server" && len(got) < len(sent) && !cliClean {
 		outcome("server-failed-first (a C02S matter)")
 		return sigs
 	}
